@@ -7,6 +7,7 @@ import Driver.Proto
 import Driver.Pre
 import Driver.Content
 import Driver.Format
+import Driver.ExprJson
 
 open Driver
 
@@ -14,7 +15,7 @@ def dispatch (line : String) : String :=
   match (line.splitOn " ").filter (· ≠ "") with
   | [] => "bad-op"
   | cmd :: args =>
-    let handlers : List (String → Option (P String)) := [cmdPre, cmdContent, cmdFormat]
+    let handlers : List (String → Option (P String)) := [cmdPre, cmdContent, cmdFormat, cmdExprJson]
     match handlers.findSome? (fun h => h cmd) with
     | none => "bad-op"
     | some p => match run p args with
